@@ -1,5 +1,6 @@
 import SoundeventModel.Ops.Common
-import SoundeventModel.Aoef.Reach
+import SoundeventModel.Aoef.Fields
+import SoundeventModel.Aoef.Valid
 namespace SE.Ops.C01
 open Lean SE SE.Aoef SE.Paths
 
@@ -76,6 +77,10 @@ def handle (op : String) (a : Json) : Except String Json := do
   | "load" =>
     let d : Doc ← fromJson? (← fld a "doc")
     return exceptJ toJson (load d (← optDir a "audio_dir"))
+  | "load_checked" =>
+    -- the loader followed by the relational validators pydantic runs on the constructed objects (C04)
+    let d : Doc ← fromJson? (← fld a "doc")
+    return exceptJ toJson (loadChecked d (← optDir a "audio_dir"))
   | "roundtrip" =>
     let c ← getCollection a
     let n ← fldNat a "n"
